@@ -4,6 +4,9 @@ import json, os, subprocess
 ROOT = os.path.dirname(os.path.dirname(os.path.abspath(__file__)))
 
 CLAIMS = {
+ "C01": dict(cat="fault_enumeration", tech="TLA+ spec (Kv.tla CrashAtomic) as oracle for exhaustive crash-point enumeration: every crash image of every backend-operation boundary is reopened by redb and the observation is validated by TLC trace validation",
+   text="fault enumeration judged by the TLA+ oracle: all crash points of recorded histories, all subsets of few unsynced writes (class representatives beyond), byte-prefix and sector tears, crashes during recovery; each observation must be exactly one commit point between the last acknowledged durable commit and the last requested one.",
+   note="trusted: storage model of docs/design.md, TLC, harness crash-image builder; large unsynced sets are sampled", ref="DESIGN.md 4/C01"),
  "C04": dict(cat="model_checking", tech="TLA+ spec (Kv.tla) + TLC: exhaustive transition tour replayed into redb, and TLC trace validation of random API histories",
    text="TLC enumerates every (state, operation) of a small ordered-map model and every transition is replayed into the real code under a configuration sweep; long random histories of the real code are validated event by event by TLC against the same specification. Exhaustive for the small model, sampled for sizes/configurations.",
    note="trusted: TLC, the Rust harness (executor, key/value corpora), serde_json; values/keys limited to the harness corpora", ref="DESIGN.md 4/C04"),
